@@ -70,6 +70,11 @@ JudgeTer(t, serial) ==
       must == IF Len(RStrip(t.line)) <= 11 THEN {1, 2} ELSE DOMAIN W       \* a bare "TER   serial" is a TER record too
   IN \A i \in must : Slice(W[i], t.line) \in Admissible(W[i], TextOf(W[i].kind, rec[W[i].name]))
 
+(* the TER after the last molecule may be left out (END closes it); everything else is fixed by SplitByTer *)
+LayoutOk(lay) == /\ Len(lay) > 0 /\ lay[Len(lay)].rec = "END"
+                 /\ \A i \in DOMAIN lay : lay[i].rec \in {"ATOM", "HETATM", "TER", "CONECT", "END"}
+                 /\ \A i, j \in DOMAIN lay : (lay[i].rec = "CONECT" /\ lay[j].rec \in {"ATOM", "HETATM", "TER"}) => j < i
+
 JudgePdbStruct(e) ==
   LET cum   == Cum(e.sizes)
       fits  == Fits5(e.sizes)
@@ -81,8 +86,8 @@ JudgePdbStruct(e) ==
       badter == {m \in DOMAIN e.ters : ~JudgeTer(e.ters[m], TerSerialC(cum, m))}
   IN IF e.readerr # "" THEN "reader raised " \o e.readerr
      ELSE IF SplitByTer(e.layout) # e.sizes THEN "TER records do not divide the file into the molecules of the system"
-     ELSE IF e.layout # Layout(e.sizes, Len(e.conect)) THEN "record layout differs from ATOM*,TER per molecule, CONECT*, END"
-     ELSE IF Len(e.ters) # Len(e.sizes) THEN "TER count differs"
+     ELSE IF ~LayoutOk(e.layout) THEN "record layout: unknown record, CONECT before the last atom, or no END at the end"
+     ELSE IF Len(e.ters) \notin {Len(e.sizes), Len(e.sizes) - 1} THEN "TER count differs"
      ELSE IF badter # {} THEN "TER record " \o ToString(Least(badter)) \o " differs from the column table (serial " \o ToString(TerSerialC(cum, Least(badter))) \o ")"
      ELSE IF SumSeq(e.read_sizes) # SumSeq(e.sizes) THEN "read-back: number of atoms differs"
      ELSE IF ~fits THEN "ok"                         \* beyond five digits only the atoms themselves are promised
